@@ -459,8 +459,9 @@ func scenFLT(s *sched.Sim, cfg Config, res *Result) {
 						// schedule instead of the canonical one (the fault then hits the site-th call of
 						// the faulted element in that schedule)
 						if s.DrawBool(1, 2) {
-							s.Policy = drawPolicy(s)
-							s.Policy.NoSearch = nil
+							pol := drawPolicyOn(s)
+							pol.NoSearch = nil
+							s.SetPolicy(pol)
 							res.Probe("flt.batch-case-under-drawn-schedule")
 						}
 						if at == 0 {
@@ -469,7 +470,7 @@ func scenFLT(s *sched.Sim, cfg Config, res *Result) {
 							raw = env.post(tag, []clientReq{reqOf(clean), reqOf(op)}, true)
 							res.Probe("flt.faulted-operation-second-in-batch")
 						}
-						s.Policy = sched.Policy{Deviation: 0}
+						s.SetPolicy(sched.Policy{Deviation: 0})
 						if len(raw.Batch) == 2 {
 							got, sibling = raw.Batch[at], raw.Batch[1-at]
 						}
